@@ -330,10 +330,8 @@ static void run_case(const e4::Case& c, e4::Comm& comm, FILE* out) {
         continue;
       g->getMirrorNodes() = savedMirrors;
       {
-        e4::pace_on(false); // never while a substrate is being set up
         Sub sub(*g, me, nh, g->isTransposed(), g->cartesianGrid(), false,
                 MODEV[M]);
-        e4::pace_on(true); // the sync loops below: idle polls may nap
         for (int red = 0; red < 3; ++red) {
           if (onlyRed >= 0 && red != onlyRed)
             continue;
@@ -536,10 +534,8 @@ static void run_case(const e4::Case& c, e4::Comm& comm, FILE* out) {
             }
           }
         }
-        e4::pace_on(false);
       } // substrate destroyed
     }
-    e4::pace_on(false);
     g->getMirrorNodes() = savedMirrors;
   }
   // sum the encoding counters of all hosts
@@ -568,6 +564,13 @@ int main(int argc, char** argv) {
     return 2;
   }
   e4::redirect_output(argv[2]);
+  // idle polls nap (e4_pace.h) for the whole C18 session: 10^5-10^6 tiny syncs
+  // per session are only feasible that way on a shared machine.  The driver
+  // keeps the one configuration away from paced sessions in which paced
+  // back-to-back partitions were seen to lose step (asynchronous master
+  // assignment of Ginger/Fennel/Sugar): C18 partitions those with
+  // cuspAsync=false; property C19 covers the asynchronous assignment, unpaced.
+  e4::pace_on(true);
   galois::DistMemSys G;
   galois::setActiveThreads(argc > 3 ? atoi(argv[3]) : 1);
   auto& net = galois::runtime::getSystemNetworkInterface();
